@@ -72,8 +72,9 @@ where
                     break;
                 },
                 Err(err) => {
-                    error!("ObserverWorker unexpected error: {:?}", err);
-                    panic!("ObserverWorker unexpected error: {:?}", err);
+                    // A request that cannot be applied in the current state or an IO error
+                    // must not stop background maintenance
+                    error!("ObserverWorker error: {:?}", err);
                 }
             }
         }
